@@ -179,7 +179,7 @@ def p_interleave(prog, case, budget):
                                      witness=dict(case=case['name'], schedule=[str(t_) for t_ in trace], profile=prog.profile)))
         if len(samples) < 1:
             samples.append(dict(case=case['name'], schedule=[str(t) for t in trace][:12], serial_orders=len(serial)))
-    explore(prog, run, on, stats=st, timeout_ms=budget['solver_ms'], max_steps=budget['steps'], max_paths=budget['paths'],
+    explore(prog, run, on, stats=st, prefix=case.get('prefix'), timeout_ms=budget['solver_ms'], max_steps=budget['steps'], max_paths=budget['paths'],
             deadline=(time.time() + budget['case_s']) if budget.get('case_s') else None)
     return dict(stats=st, findings=findings, samples=samples, nontrivial=nontriv[0], case=case['name'])
 
@@ -227,15 +227,15 @@ def make_cases(tier, profile):
     add('two connections claim the same nick', [U('c1', None, 'u1', 'NICK zed'), U('c2', None, 'u2', 'NICK zed')], extra=[('one_owner', 'one_owner')], claimed='zed')
     add('claim by NICK against claim completed by USER', [U('c1', 'zed', None, 'USER u1 0 * :r'), U('c2', None, 'u2', 'NICK zed')], extra=[('one_owner', 'one_owner')], claimed='zed')
     add('two claims with a server password (blocking verification)', [U('c1', None, 'u1', 'NICK zed', password='goodpw'), U('c2', None, 'u2', 'NICK zed', password='goodpw')],
-        spec=dict(password='goodpw'), extra=[('one_owner', 'one_owner')], claimed='zed')
+        spec=dict(password='goodpw'), extra=[('one_owner', 'one_owner')], claimed='zed', dsplit=4)
     add('registered NICK against a registering connection', [R('alice', 'NICK zed'), U('c2', None, 'u2', 'NICK zed')])
     add('two first JOINs of a new channel', [R('alice', 'JOIN #new'), R('bob', 'JOIN #new')], extra=[('one_founder', 'one_founder')], created='#new')
     add('two JOINs into the last free place of a +l channel', [R('alice', 'JOIN #x'), R('bob', 'JOIN #x')], partial=dict(only_carol, **{'haslimit_#x': True, 'limit_#x': 2}),
         spec=dict(sym_limit=True), extra=[('limit_kept', 'limit_kept')], limited=('#x', 2))
     add('two messages from one sender against a PART', [R('alice', 'PRIVMSG #x :one', 'PRIVMSG #x :two'), R('bob', 'PART #x')], partial=all_x)
     add('message to a nick against its NICK change', [R('alice', 'PRIVMSG bob :hi'), R('bob', 'NICK robert')], partial=all_x)
-    add('KICK against a message of the victim', [R('alice', 'KICK #x bob'), R('bob', 'PRIVMSG #x :still here')], partial=dict(all_x, **{'operator_alice_#x': True}), spec=dict(sym_ranks=True))
-    add('MODE +m against a message', [R('alice', 'MODE #x +m'), R('bob', 'PRIVMSG #x :may I')], partial=dict(all_x, **{'operator_alice_#x': True}), spec=dict(sym_ranks=True, sym_flags=True))
+    add('KICK against a message of the victim', [R('alice', 'KICK #x bob'), R('bob', 'PRIVMSG #x :still here')], partial=dict(all_x, **{'operator_alice_#x': True}), spec=dict(sym_ranks=True), dsplit=2)
+    add('MODE +m against a message', [R('alice', 'MODE #x +m'), R('bob', 'PRIVMSG #x :may I')], partial=dict(all_x, **{'operator_alice_#x': True}), spec=dict(sym_ranks=True, sym_flags=True), dsplit=3)
     add('QUIT against a message to the leaver', [R('alice', 'QUIT'), R('bob', 'PRIVMSG alice :bye')], partial=all_x)
     add('per-connection order: three commands of one connection against one of another', [R('alice', 'JOIN #new', 'TOPIC #new :t', 'PART #new'), R('bob', 'JOIN #new')])
     if tier != 'quick':
